@@ -944,7 +944,7 @@ class Env:
         self._fresh = 0
         # unwinding bounds for loops inside repository code: {function name: max number of
         # decisions taken from one activation of that function}
-        self.site_bounds: dict = {}
+        self.site_bounds: dict = {"process_ecall": 16}  # default unwinding bound of the print-string loop
         self._site_counts: dict = {}
         # side solver holding only the path-condition conjuncts over small (index-like) inputs;
         # used to simplify write-log reads (sound: it is weaker than the path condition)
